@@ -89,7 +89,7 @@ def plan(tier, seed):
     if tier == "quick":
         k2 = alphabet.texts_k2(2, glued="core")
         k2_ts = [edge[3]]
-        k2_opts = EXTREME_OPTS
+        k2_opts = EXTREME_OPTS[:2]
         k3 = []
         absent = k1
         cps = []
@@ -103,13 +103,13 @@ def plan(tier, seed):
 
     gs = [s_ for _, s_ in grammar.sentences()]
     # quick: second components = first and last sentence of every family (the last ones are the hazard forms: hour-only clocks, huge durations)
-    gs_b = list(dict.fromkeys(x for _, ss in grammar.FAMILIES for x in (ss[0], ss[-1], ss[-2])))
+    gs_b = list(dict.fromkeys(x for _, ss in grammar.FAMILIES for x in (ss[0], ss[-1])))
 
     def gen():
         for t in k1:
             for ts in edge:
-                # quick: full 108-vector product at every third reference time, the six covering vectors at the others
-                for o in (ALL_OPTS if (tier != "quick" or edge.index(ts) % 3 == 0) else SIX_OPTS):
+                # quick: full 108-vector product at every sixth reference time, the six covering vectors at the others
+                for o in (ALL_OPTS if (tier != "quick" or edge.index(ts) % 6 == 0) else SIX_OPTS):
                     yield ("call", t, ts, o, seed)
         for t in k2:
             for ts in k2_ts:
@@ -124,7 +124,7 @@ def plan(tier, seed):
         # (datetime - datetime ranges, date for <huge duration>, part of day + date + range ...)
         for a in gs:
             for b in (gs_b if tier == "quick" else gs):
-                for j in (PAIR_JOINERS[:3] if tier == "quick" else PAIR_JOINERS):
+                for j in ((" - ", " for ") if tier == "quick" else PAIR_JOINERS):
                     for o in (EXTREME_OPTS[:1] if tier == "quick" else EXTREME_OPTS):
                         yield ("call1" if tier == "quick" else "call", a + j + b, edge[3], o, seed)
         # long texts: 3..8 grammar sentences in a row (one contiguous expression of 20+ tokens stresses the scorer's numerics)
@@ -156,16 +156,16 @@ def plan(tier, seed):
         "texts_1_token": len(k1),
         "texts_2_tokens": len(k2),
         "texts_3_tokens": len(k3),
-        "grammar_sentence_pairs_x_joiners": (len(gs) * len(gs_b) * 3) if tier == "quick" else (len(gs) ** 2 * len(PAIR_JOINERS)),
+        "grammar_sentence_pairs_x_joiners": (len(gs) * len(gs_b) * 2) if tier == "quick" else (len(gs) ** 2 * len(PAIR_JOINERS)),
         "option_vectors_full_product": len(ALL_OPTS),
         "option_vectors_2_tokens": len(k2_opts),
         "reference_times": len(edge),
         "reference_times_2_tokens": len(k2_ts),
         "one_char_texts": 2048 * len(cps) - (2048 if cps else 0),
         "model_absent_texts": len(absent),
-        "reference_times_full_option_product": len(edge) if tier != "quick" else len(edge) // 3,
+        "reference_times_full_option_product": len(edge) if tier != "quick" else len(edge) // 6,
     }
-    return {"space": space, "cases": gen(), "chunk": 128, "hash_distinct": tier == "quick"}
+    return {"space": space, "cases": gen(), "chunk": 48, "hash_distinct": tier == "quick"}
 
 
 def _check_result(r, text, sig_base, v):
